@@ -602,7 +602,7 @@ func c16Converters(c *Ctx) {
 				if !ok {
 					return true
 				}
-				ts := typeStr(tv.Type)
+				ts := structuralTypeStr(tv.Type)
 				switch {
 				case ts == "[]*variable.Value":
 					ok, how := le.proveIndexBelowLen(ix)
@@ -712,6 +712,23 @@ func sameCountedLoop(w *World, mk, lit *Func, ix *ast.IndexExpr) (bool, string) 
 // per non-returning iteration to the converter slice obj (so that the slice holds exactly N elements afterwards).
 func converterFillBound(w *World, mk *Func, obj types.Object) ast.Expr {
 	info := mk.Pkg.TypesInfo
+	// the slice may reach its final name through locals assigned once (converters := found)
+	mxp := w.expander(mk)
+	for depth := 0; depth < 4; depth++ {
+		v, ok := obj.(*types.Var)
+		if !ok {
+			break
+		}
+		rhs, idx, _, ok := mxp.def(v)
+		if !ok || rhs == nil || idx >= 0 {
+			break
+		}
+		id := identOf(rhs)
+		if id == nil || info.Uses[id] == nil {
+			break
+		}
+		obj = info.Uses[id]
+	}
 	var bound ast.Expr
 	loops := 0
 	walkNoLit(mk.Body, func(n ast.Node) bool {
@@ -785,7 +802,7 @@ func argIndexByConverterRange(w *World, mk, lit *Func, le *entFn, ix *ast.IndexE
 		if sid == nil {
 			return false, ""
 		}
-		if tv, ok := info.Types[rs.X]; !ok || !strings.HasPrefix(typeStr(tv.Type), "[]func(") {
+		if tv, ok := info.Types[rs.X]; !ok || !strings.HasPrefix(structuralTypeStr(tv.Type), "[]func(") {
 			return false, ""
 		}
 		sobj := info.Uses[sid]
@@ -881,7 +898,7 @@ func c16KindTables(c *Ctx, ctors []*Func) {
 			if !ok {
 				return true
 			}
-			if tv, ok := info.Types[cl]; ok && strings.HasPrefix(typeStr(tv.Type), "map[reflect.Kind]func(") {
+			if tv, ok := info.Types[cl]; ok && strings.HasPrefix(structuralTypeStr(tv.Type), "map[reflect.Kind]func(") {
 				table = cl
 			}
 			return true
@@ -934,7 +951,23 @@ func c16KindTables(c *Ctx, ctors []*Func) {
 				return true
 			}
 			if callee := calleeOf(info, call); callee != nil && funcFullName(callee) == "reflect.ValueOf" {
-				if tv, ok := info.Types[call.Args[0]]; ok {
+				arg := unparen(call.Args[0])
+				// reflect.ValueOf(any(x)) reflects x: look through conversions to interface types
+				for {
+					cv, ok := arg.(*ast.CallExpr)
+					if !ok || len(cv.Args) != 1 {
+						break
+					}
+					ft, ok := info.Types[cv.Fun]
+					if !ok || !ft.IsType() {
+						break
+					}
+					if _, isIface := ft.Type.Underlying().(*types.Interface); !isIface {
+						break
+					}
+					arg = unparen(cv.Args[0])
+				}
+				if tv, ok := info.Types[arg]; ok {
 					if b, ok := tv.Type.Underlying().(*types.Basic); ok {
 						produced = strings.Title(b.Name())
 					}
